@@ -2,7 +2,7 @@
    Statements only; proofs in theories/PLoad_proofs.v.  L is a parameter of the model: every
    theorem holds for every build-time value of CBOR_MAX_STACK_SIZE; the value of this build is
    regenerated from a cmake configure of the working tree (Gen_config). *)
-From CB Require Import Word PStream PItem SpecItem PBuild SpecParse PLoad_proofs Bridge_config.
+From CB Require Import Word PStream PItem SpecItem PBuild SpecParse PLoad_proofs Bridge_config Bridge_inventory.
 From CBGen Require Import Gen_config.
 Local Open Scope N_scope.
 
@@ -31,3 +31,8 @@ Example C19_examples :
   load 2 (2^20) [0xC1; 0x81; 0x80] = LOk (ITag 1 (IArray false [IArray false []])) 3 /\
   depth (ITag 1 (IArray false [IArray false []])) = 2.
 Proof. repeat split; vm_compute; reflexivity. Qed.
+
+(* the decoder's stack counter (and every other counter the model treats as unbounded-below-2^64)
+   is a 64-bit field: it cannot wrap before the limit for any configurable L *)
+Theorem C19_field_widths : forallb field_is_64 required_fields = true.
+Proof. exact bridge_field_widths. Qed.
